@@ -50,7 +50,8 @@ func init() {
 func c04Streams(level int) []Stream {
 	var out []Stream
 	for _, s := range readerStreams(level) {
-		if s.Fmt == "xz" && s.ValidCuts == nil {
+		// multi-stream files (ValidCuts set) take part in the byte-level mutations only
+		if s.Fmt == "xz" {
 			out = append(out, s)
 		}
 	}
@@ -248,12 +249,9 @@ func runC04(r *core.Run) {
 		sb int
 	}
 	var jobs []job
-	lens := []int{2, 3, 7, 8, 9, 16, 32}
-	if th {
-		lens = nil
-		for l := 2; l <= 32; l++ {
-			lens = append(lens, l)
-		}
+	var lens []int // every burst length of the statement, in both tiers
+	for l := 2; l <= 32; l++ {
+		lens = append(lens, l)
 	}
 	for _, s := range streams {
 		sm := newSiteMap(s)
@@ -277,8 +275,15 @@ func runC04(r *core.Run) {
 			}
 			// deletion of every suffix (the file ends early)
 			for k := 0; k < len(s.Data); k++ {
+				if s.ValidCuts[k] {
+					continue // a multi-stream file cut on a stream / padding boundary is a valid shorter file
+				}
 				jobs = append(jobs, job{s: s, m: &ByteMut{Kind: "trunc", Pos: k}, sm: sm})
 			}
+		}
+		if s.ValidCuts != nil {
+			r.Trace(1)
+			continue
 		}
 		for _, reg := range sealRegions(s.Data) {
 			for b := reg.start * 8; b < reg.end*8; b++ {
